@@ -11,19 +11,23 @@ generator, so its class is known by construction, following the property text:
 * inert: every other attribute-driven literal (any single modifier, surrounding text, escapes,
   several placeholders, no placeholder, `.*`, `w$`);
 * must-not-compile: a placeholder whose index denotes no argument (`{1}` with one argument, `{0}`
-  or `{}` with none).
+  or `{}` with none); separate `cargo check`, one type per literal;
+* literals `write!` rejects for another reason (unused / unknown argument): a rejection is only
+  counted; should one compile it has to be inert (it is not in the pass-through class).
 
 For every type, value and a sample of outer specs from the grid
-fill{-,*,e'} x align{-,<,^,>} x sign{-,+,-} x # x 0 x width{-,8} x precision{-,.3} (each a literal
-`format!` call site in the prelude) the program records `format!("{:SPEC<D>}", value)` next to
+fill{-,*,e'} x align{-,<,^,>} x sign{-,+,-} x # x 0 x width{-,8} x precision{-,.3} (480 specs, each a
+literal `format!` call site in the prelude) the program records `format!("{:SPEC<D>}", value)` next to
 
 * pass-through: `format!("{:SPEC<P>}", argument)` - std itself formatting the argument expression
-  (re-evaluated outside the derive) under the placeholder's trait P with the same spec;
+  (re-evaluated outside the derive on an equal value) under the placeholder's trait P with the same
+  spec.  A field named in the literal is the field itself, a field passed as an argument is a
+  reference to it (display.md), which matters for `{:p}`;
 * inert: `format!("{:<D>}", value)` - the same value through the same derive without any flag.
 
 The verdict is computed offline from the event log.  A cheap in-process sweep (L1) over a much larger
-set of literals looks at the shape of the expansion (`Trait::fmt(..)` vs `write!`) only to *select*
-additional literals for the L2 run; it never produces a verdict by itself.
+set of single-placeholder literals looks at the shape of the expansion (`Trait::fmt(..)` vs `write!`)
+only to *select* additional literals for the L2 run; it never produces a verdict by itself.
 """
 import re
 
@@ -802,15 +806,19 @@ def run(ctx):
                 "width, precision, `x?`, `X?`, combinations); text/escapes before/after; two placeholders; no placeholder; `.*`, `w$`, `1$`; `{CONST}` (observed only); "
                 "out-of-range indices (must not compile); literals `write!` rejects for unused/unknown arguments (counted; inert if they compile). Placeholder trait "
                 "drawn from the traits the argument's type implements (9 traits), field types Spy/i32/u8/f64/&str/String/char/bool/&i32, 1-3 fields, tuple/named/unit, "
-                "structs and enum variants, generic parameter where bounds are inferable; per value %d of the %d outer specs "
+                "structs and enum variants, raw-identifier field names, generic parameter where bounds are inferable; per value %d of the %d outer specs "
                 "(fill x align x sign x # x 0 x width x precision; Debug additionally under `x?`/`X?`). distinct = distinct (derive, set of (mode, literal form)) per type; "
-                "no case is trivial: every probe uses at least one non-empty outer spec" % (nspecs + 1, len(SPECS)))
+                "every probe uses non-empty outer specs and a placeholder trait under which the argument's type shows flags (std's Debug for str/char ignores them and is "
+                "not chosen), except the documented `format_args!` argument, which ignores flags by design. In addition an in-process sweep expands the grid "
+                "{``,0,1,_0,n} x {no arg, `_0`, `n = _0`, `*_0`} x align/fill x sign x # x 0 x width x precision x 11 types x trailing space (+ text/escapes) on `struct S(Spy)` "
+                "and adds every literal whose expansion shape is unexpected to the compiled workload (none on a conforming tree)" % (nspecs + 1, len(SPECS)))
     ctx.assumptions += [
         "rt::Spy renders every Formatter flag it receives; i32/f64/&str/char/bool/String/&i32 render with std's own implementations",
         "expected strings are std's format! applied in the same process to the argument expression re-evaluated outside the derive, with the caller's spec and the placeholder's trait letter; for `{:x?}`/`{:X?}` callers of a Debug derive delegating to a non-Debug trait the reference is a hand-written Debug impl passing its Formatter on",
         "`&dyn Trait` forwards the Formatter unchanged (std's `impl Trait for &T`); for Pointer a forwarding wrapper is used because `&T: Pointer` prints the reference's address",
         "a placeholder naming a constant/static of the enclosing scope (`{CONST}`) is neither 'its only argument' nor 'a field by name': observed, not judged",
-        "unions (always `write!`) and the enum-level shared attribute (property C07) are not part of this workload",
+        "unions (always `write!`; the documentation only shows a text-only literal) and the enum-level shared attribute (property C07) are not part of this workload",
+        "the in-process sweep reads the expansion shape only to select literals for compilation; literals it does not select are not judged by it",
     ]
 
     pre = prelude()
@@ -829,7 +837,7 @@ def run(ctx):
         if c.id in resm.compile_errors:
             txt = l2.err_text(resm.compile_errors[c.id], 8)
             ctx.bump("rejected_out_of_range_types")
-            if len(ctx.samples) < 2 or (len(ctx.samples) < 12 and rng.random() < 0.02):
+            if ctx.extra["rejected_out_of_range_types"] <= 3:
                 ctx.sample({"case": c.meta["what"], "type": c.meta["decl"], "expected": "does not compile", "observed": txt[:300]})
         else:
             ctx.violate("compiles:out-of-range-index", "a placeholder whose index denotes no argument compiles (%s)\n%s" % (c.meta["what"], c.meta["decl"]),
@@ -837,6 +845,7 @@ def run(ctx):
 
     # --- run-time probes ----------------------------------------------------------------------
     short = 0
+    seen_samples = set()
     for c, r, optional in [(c, res, False) for c in cases] + [(c, reso, True) for c in opt_cases]:
         units = c.units
         if c.id in r.compile_errors:
@@ -899,8 +908,9 @@ def run(ctx):
             ctx.bump("obs_outer_binding_" + ("passthrough" if a and not b else "inert" if b and not a else "both" if a and b else "neither"))
         if n < c.expect and not dead:
             short += 1
-        elif len(ctx.samples) < 12 and rng.random() < 0.03:
-            cmpv = [e for e in evs if "got" in e and e["kind"].split("|")[1] in ("pt", "in")]
+        elif len(ctx.samples) < 12 and (units[0].mode, c.meta["derive"] == "Debug", units[0].form.split("/")[0]) not in seen_samples:
+            seen_samples.add((units[0].mode, c.meta["derive"] == "Debug", units[0].form.split("/")[0]))
+            cmpv = [e for e in evs if "got" in e and e["kind"].split("|")[1] in ("pt", "in") and e["kind"].split("|")[2]]
             ctx.sample({"case": c.meta["what"], "type": c.meta["decl"], "units": c.meta["units"],
                         "events": [{"kind": e["kind"], "through_derive": e["got"], "reference": e["want"]} for e in cmpv[:3]]})
     if not ctx.samples and cases:
